@@ -43,6 +43,8 @@ pub use crate::client::RttConfig;
 pub use crate::client::StunClient;
 pub use crate::client::StunClienteBuilder;
 pub use crate::client::TransportReliability;
+#[cfg(feature = "verif-hooks")]
+pub use crate::client::VerifSnapshot;
 pub use crate::events::StunTransactionError;
 pub use crate::events::StunClientEvent;
 pub use crate::message::StunAttributes;
